@@ -20,16 +20,46 @@ fn any_profile() -> SrtpProfile {
 }
 
 // ---------------------------------------------------------------- C04 kernels
+/// RFC 3711 3.3.1 (written from the RFC text): with s_l the highest sequence number seen and
+/// ROC the local rollover counter, v = ROC+1 if SEQ - s_l < -2^15, ROC-1 if SEQ - s_l > 2^15,
+/// ROC otherwise (mod 2^32); before the first packet v = ROC.
+pub(crate) fn post_estimate_roc(roc: u32, last: Option<u16>, seq: u16, r: u32) -> bool {
+    match last {
+        None => r == roc,
+        Some(l) => {
+            let d = seq as i64 - l as i64;
+            if d < -32768 { r == roc.wrapping_add(1) } else if d > 32768 { r == roc.wrapping_sub(1) } else { r == roc }
+        }
+    }
+}
+/// RFC 3711 3.3.1: the receiver keeps the highest index 2^16*ROC+SEQ it has authenticated.
+pub(crate) fn post_update(roc0: u32, last0: Option<u16>, seq: u16, roc: u32, roc1: u32, last1: Option<u16>) -> bool {
+    match last0 {
+        None => last1 == Some(seq) && roc1 == roc,
+        Some(l) => {
+            let cur = (roc0 as u64) * 65536 + l as u64;
+            let new = (roc as u64) * 65536 + seq as u64;
+            if new > cur { last1 == Some(seq) && roc1 == roc } else { last1 == Some(l) && roc1 == roc0 }
+        }
+    }
+}
+
 #[kani::proof_for_contract(SrtpContext::estimate_roc)]
 fn c04_estimate_roc_contract() {
     let c = lit_ctx(any_profile());
-    let _ = c.estimate_roc(kani::any());
+    let seq: u16 = kani::any();
+    let r = c.estimate_roc(seq);
+    // same predicate as the in-place contract; lets a counterexample be replayed natively
+    assert!(post_estimate_roc(c.rollover_counter, c.last_sequence, seq, r));
 }
 
 #[kani::proof_for_contract(SrtpContext::update)]
 fn c04_update_contract() {
     let mut c = lit_ctx(any_profile());
-    c.update(kani::any(), kani::any());
+    let (roc0, last0) = (c.rollover_counter, c.last_sequence);
+    let (seq, roc): (u16, u32) = (kani::any(), kani::any());
+    c.update(seq, roc);
+    assert!(post_update(roc0, last0, seq, roc, c.rollover_counter, c.last_sequence));
 }
 
 /// canary: a false claim about estimate_roc must FAIL (vacuity / pipeline self-check)
